@@ -178,7 +178,7 @@ func c17Behaviour(lib *ast.KnowledgeLibrary, keep map[string]bool) string {
 	w := ref.NewWorld()
 	w.Objs["F"] = facts.New()
 	tr := hx.RunOn(&hx.Program{ByName: map[string]*grl.Rule{}}, kb, w, hx.RunOpts{MaxCycle: 6, NoSnapshots: true}, nil)
-	return fmt.Sprintf("%s | S=%q err=%v panic=%v", strings.Join(tr.Events, " "), w.Objs["F"].S, tr.Err, tr.Panic)
+	return fmt.Sprintf("%s | S=%q err=%v panic=%v", hx.Evs(tr.Events), w.Objs["F"].S, tr.Err, tr.Panic)
 }
 
 func C17(rep *ev.Reporter, tier string) {
